@@ -48,6 +48,39 @@ theorem C03_chunks_only_change_grid (c₁ c₂ : Cfg) (enc : α → β) (vals : 
     pipeline c₁ enc vals o₁ = pipeline c₂ enc vals o₂ :=
   C03_config_invariant c₁ c₂ enc vals hn h1 h2 hcap o₁ o₂ hp1 hp2
 
+/-- **C03 (chunk cap, relative form of `C03_max_chunks_prefix`)**: a variant-chunk cap `m` stores exactly the first `min (m * chunk) n` rows of
+    what the uncapped conversion stores — the same values at every index below the cut, nothing at
+    or beyond it — for any decomposition and execution order on either side -/
+theorem C03_cap_is_prefix (c₁ c₂ : Cfg) (enc : α → β) (vals : List α) (hn : vals ≠ []) (m : Nat) (hmpos : 0 < m)
+    (hchunk : c₁.chunk = c₂.chunk) (hcap1 : c₁.maxChunks = some m) (hcap2 : c₂.maxChunks = none)
+    (hc : 0 < c₁.chunk) (hp1 : 0 < c₁.encodeParts) (hp2 : 0 < c₂.encodeParts)
+    (o₁ o₂ : List (Nat × Nat))
+    (h1 : o₁.Perm (B2Z.genPartitions vals.length c₁.chunk c₁.encodeParts c₁.maxChunks))
+    (h2 : o₂.Perm (B2Z.genPartitions vals.length c₂.chunk c₂.encodeParts c₂.maxChunks)) (i : Nat) :
+    pipeline c₁ enc vals o₁ i =
+      if i < min (m * c₁.chunk) vals.length then pipeline c₂ enc vals o₂ i else none := by
+  rw [C01_pipeline_refines_spec c₁ enc vals hn hc hp1 (by intro x hx; rw [hcap1] at hx; cases hx; exact hmpos) o₁ h1 i,
+    C01_pipeline_refines_spec c₂ enc vals hn (hchunk ▸ hc) hp2 (by intro x hx; rw [hcap2] at hx; cases hx) o₂ h2 i]
+  have hlen : 0 < vals.length := List.length_pos_iff.mpr hn
+  have r2 : rowsWritten c₂ vals.length = vals.length := by
+    simp only [rowsWritten, hcap2, B2Z.totalWritten, B2Z.numChunks]
+    have := B2Z.ceilDiv_mul_ge vals.length c₂.chunk (hchunk ▸ hc)
+    omega
+  have r1 : rowsWritten c₁ vals.length = min (m * c₁.chunk) vals.length := by
+    simp only [rowsWritten, hcap1, B2Z.totalWritten, B2Z.numChunks]
+    have := B2Z.ceilDiv_mul_ge vals.length c₁.chunk hc
+    by_cases hle : B2Z.ceilDiv vals.length c₁.chunk ≤ m
+    · rw [Nat.min_eq_left hle]
+      have := Nat.mul_le_mul_right c₁.chunk hle
+      omega
+    · have hm' : m ≤ B2Z.ceilDiv vals.length c₁.chunk := by omega
+      rw [Nat.min_eq_right hm']
+  rw [r1, r2]
+  by_cases h : i < min (m * c₁.chunk) vals.length
+  · have : i < vals.length := by omega
+    simp [h, this]
+  · simp [h]
+
 end B2Z.Pipe
 
 namespace B2Z.Checks
